@@ -24,6 +24,7 @@ import (
 	"io"
 	"net"
 	"strconv"
+	"sync/atomic"
 	"time"
 
 	"github.com/prometheus/client_golang/prometheus"
@@ -183,6 +184,9 @@ type Handler struct {
 	parser                  *sqlparser.Parser
 	protocolState           *ProtocolState
 	registry                *PreparedStatementRegistry
+	// commandPhase is set by the database side when the connection phase ends (OK or ERR packet
+	// after the hand-shake); until then client packets are authentication data, not commands
+	commandPhase atomic.Bool
 }
 
 // NewMysqlProxy returns new Handler
@@ -360,6 +364,17 @@ func (handler *Handler) ProxyClientConnection(ctx context.Context, errCh chan<- 
 					return
 				}
 			}
+		}
+		if !handler.commandPhase.Load() {
+			// HandshakeResponse, AuthSwitchResponse, AuthMoreData answers...: relay as is, the first
+			// byte of such a packet is not a command
+			if _, err := handler.dbConnection.Write(packet.Dump()); err != nil {
+				clientLog.WithError(err).WithField(logging.FieldKeyEventCode, logging.EventCodeErrorNetworkWrite).
+					Debugln("Can't write send packet to db")
+				errCh <- base.NewClientProxyError(err)
+				return
+			}
+			continue
 		}
 		handler.clientSequenceNumber = int(packet.GetSequenceNumber())
 		clientLog = clientLog.WithField("sequence_number", handler.clientSequenceNumber)
@@ -992,6 +1007,10 @@ func (handler *Handler) ProxyDatabaseConnection(ctx context.Context, errCh chan<
 		if packet.IsErr() {
 			handler.resetQueryHandler()
 		}
+		if state != stateFirstPacket && !handler.commandPhase.Load() && (packet.IsErr() || packet.data[0] == OkPacket) {
+			// OK or ERR ends the connection phase (AuthSwitchRequest is 0xFE, AuthMoreData 0x01)
+			handler.commandPhase.Store(true)
+		}
 
 		switch state {
 		case stateSkipResponse:
@@ -1006,6 +1025,10 @@ func (handler *Handler) ProxyDatabaseConnection(ctx context.Context, errCh chan<
 			continue
 		case stateFirstPacket:
 			state = stateServe
+			if packet.IsErr() {
+				// the server refused the connection instead of greeting
+				handler.commandPhase.Store(true)
+			}
 			serverCapabilities := packet.getServerCapabilities()
 			handler.Capabilities.SetServerCapabilities(serverCapabilities, packet.getExtendedMariaDBCapabilities())
 
